@@ -143,8 +143,11 @@ int Util::parseSizeOrPercent(
     int64_t total) {
   try {
     if (input.size() > 0 && input.at(input.size() - 1) == '%') {
-      int64_t pct = std::stoi(input.substr(0, input.size() - 1));
-      if (pct < 0 || pct > 100) {
+      const auto num = input.substr(0, input.size() - 1);
+      size_t end_pos;
+      int64_t pct = std::stoi(num, &end_pos);
+      // "5x%" is not a percentage
+      if (end_pos != num.length() || pct < 0 || pct > 100) {
         return -1;
       }
 
